@@ -55,6 +55,16 @@ class System:
         elif n == "setindex":
             o[a["i"]] = OBJ[a["x"]]
             r = None
+        elif n == "setslice":
+            o[a["lo"]:a["hi"]] = [OBJ[x] for x in a["xs"]]
+            r = None
+        elif n == "grab":
+            self.h = o
+            return 0
+        elif n == "popvia":
+            r = self.h.pop(a["i"])
+        elif n == "appendvia":
+            r = self.h.append(OBJ[a["x"]])
         elif n == "popindex":
             r = o.pop(a["i"])
         elif n == "poplast":
@@ -137,4 +147,4 @@ def replay(beh, opts):
 
 def _replay1(beh, opts):
     return _simple.run(System, beh, opts,
-                       nontrivial=lambda b: any(s["act"]["name"] not in ("init", "setvalue", "setvalues") for s in b["steps"]))
+                       nontrivial=lambda b: any(s["act"]["name"] not in ("init", "setvalue", "setvalues", "grab") for s in b["steps"]))
